@@ -50,11 +50,11 @@ inline int rc_harness_main(int argc, char **argv, const std::vector<Mode> &modes
   auto gen = m->gen();
   bool ok = rc::check(m->name, [&]() {
     std::string text = *gen;
-    st.about_to_run(text);
+    st.about_to_run(text); st.narrowed.clear();
     std::string sig; bool nt = false;
     bool good = run_case(text, sig, nt);
     st.record(text, nt);
-    if (!good) { st.fail(sig, text); RC_FAIL(sig); }
+    if (!good) { st.fail(sig, st.narrowed.empty() ? text : st.narrowed); RC_FAIL(sig); }
   });
   st.flush();
   return ok ? 0 : 1;
